@@ -33,7 +33,7 @@ def required(tier):
 
 def gen_cases(seed, tier):
     rng = np.random.default_rng([seed, 6])
-    n = 1300 if tier == 'quick' else 40000
+    n = 1300 if tier == 'quick' else 120000
     cases = []
     for i in range(n):
         g = work_sig.gen_geometry(rng, tier)
